@@ -4,8 +4,12 @@
     macro keywords map into the macro-call-or-statement subset, the ASCII rows of the Unicode
     predicates are the closed forms the scanners assume, and the characters that delimit tokens
     are not identifier characters.  The per-type text shapes of DESIGN.md section 6.1 are tested on every
-    token of every input by the check's oracle. *)
+    token of every input by the check's oracle.
+    For macro-free texts (release profile) [C06_macro_free_channels] proves the channel clauses outright:
+    comment types are exactly the tokens of the comment channel, whitespace is hidden, and the hidden
+    channel holds only whitespace and catch-all characters (corollary of the C11 simulation). *)
 From Coq Require Import NArith List Bool.
+From SasLexer Require Import Model.Core Model.Lexer3 Spec.RefLex Proofs.RefLexTiling Proofs.RefLexShape Proofs.OcBase Proofs.OcWhole Proofs.OcAll.
 From SasLexer Require Import Gen.TokenType Gen.ErrorKind Gen.Channel Model.Base Model.Helpers Proofs.Tables.
 Import ListNotations.
 
@@ -30,3 +34,22 @@ Theorem C06_character_classes :
   forallb (fun c => negb (is_xid_continue c) && negb (is_xid_start c))
           [10; 13; 32; 34; 37; 38; 39; 40; 41; 42; 44; 46; 47; 59; 61]%N = true.
 Proof. exact special_chars_not_ident. Qed.
+
+(** the channel clauses of the property, for every macro-free text (release profile) *)
+Theorem C06_macro_free_channels : forall (msep : bool) (src : list char),
+  macro_free (body_of src) = true ->
+  Forall (fun t =>
+            (t_chan t = CH_COMMENT <-> is_comment_type (t_type t) = true) /\
+            (t_type t = T_WS -> t_chan t = CH_HIDDEN) /\
+            (t_chan t = CH_HIDDEN -> t_type t = T_WS \/ t_type t = T_CatchAll))
+         (b_toks (lr_buffer (lex (mkCfg false msep) src))).
+Proof.
+  intros msep src H. pose proof (lex_is_reflex_macro_free msep src H) as G. cbv zeta in G.
+  pose proof (reflex_shape src) as Sh.
+  destruct (reflex src) as [[T E] lit]. destruct G as (_ & _ & G3 & _). destruct Sh as [_ Hc].
+  revert G3. generalize (b_toks (lr_buffer (lex (mkCfg false msep) src))) as toks. clear -Hc.
+  induction Hc as [|u us Hu _ IH]; intros [|t ts] E0; cbn [map] in E0; try discriminate; constructor.
+  - injection E0 as Et Ec _ _ _. unfold chan_ok in Hu. rewrite Et, Ec. exact Hu.
+  - injection E0 as _ _ _ _ E2. apply IH. exact E2.
+Qed.
+Print Assumptions C06_macro_free_channels.
